@@ -52,4 +52,19 @@ PROPS = {
                     "apply_mul_of_valid lemma is not yet proved", "tableau<->unitary and state-vector conversions are not yet covered"],
         "assumptions": [],
     },
+    "C09": {
+        "lean_modules": ["StimModel.Props.C09", "StimModel.Core.R8", "StimModel.Core.Uint"],
+        "builds": ["asan"],
+        "areas": [
+            {"area": "fmt", "n": {"quick": 1600, "thorough": 40000}, "builds": ["asan"]},
+        ],
+        "rule": "bit tables of width 0..1100 (every residue mod 8/64/255/256 near the boundaries; all-zero, all-one, single-bit, sparse, dense, runs of 253..256 zeros), any M/D/L split: "
+                "bytes of MeasureRecordWriter (write_bit / write_bits / write_bytes paths) and write_table_data (incl. ptb64, reference-sample XOR) vs the Lean reference encoders; "
+                "all four reader entry points x 3 word widths vs the Lean decoders on writer output, mutated/truncated output and random bytes, under ASan+UBSan; "
+                "distinct = distinct case descriptions with at least one comparison",
+        "trusted_base": ["ASan/UBSan as the memory-safety observer for hostile inputs"],
+        "partial": ["rt_hits / rt_dets (decimal index round trip through the 64-bit accumulating reader) are validated by correspondence; the building block readUint_digits is proved",
+                    "ptb64 round trip validated by correspondence"],
+        "assumptions": ["hits/dets input naming an index twice and b8 padding bits that are set are declared don't-care for bit values (no writer produces them); only safety is compared there"],
+    },
 }
